@@ -218,6 +218,17 @@ func mutantsFor(prop string) []Mutant {
 		{"C18", "the memory stream doubles its capacity whatever is asked for", []Edit{{"libvore/files/memorystream.go", "make([]byte, len(ms.contents), 2*(ms.pos+len(buf)))", "make([]byte, len(ms.contents), 2*cap(ms.contents)+4096)"}}},
 		{"C05", "a with-string is written out between quotes", []Edit{{gen, "import (\n\t\"fmt\"\n\t\"math/rand\"\n", "import (\n\t\"fmt\"\n\t\"math/rand\"\n\t\"strconv\"\n"}, {gen, "\tresult := ReplaceString{\n\t\tValue: l.Value,\n", "\tresult := ReplaceString{\n\t\tValue: strconv.Quote(l.Value),\n"}}},
 		{"C12", "a double negation is dropped by the parser", []Edit{{ps, "\t\tlhs = AstProcessUnaryExpression{tokens[index].TokenType, rhs}\n", "\t\tif inner, isUnary := rhs.(AstProcessUnaryExpression); isUnary && inner.Op == NOT && tokens[index].TokenType == NOT {\n\t\t\tlhs = inner.Expr\n\t\t} else {\n\t\t\tlhs = AstProcessUnaryExpression{tokens[index].TokenType, rhs}\n\t\t}\n"}}},
+		{"C13", "between the copies of a loop body only the captures are forgotten", []Edit{{gen, "\t\tfor name := range state.variables {\n\t\t\tif !before[name] {", "\t\tfor name, target := range state.variables {\n\t\t\tif !before[name] && target == -1 {"}}},
+		{"C16", "a finished token that spells an alias is re-typed", []Edit{{lx, "\t\ttokens = append(tokens, token)\n\t\tif token.TokenType == EOF {", "\t\tif strings.ToLower(token.Lexeme) == \"optional\" {\n\t\t\ttoken.TokenType = MAYBE\n\t\t}\n\t\ttokens = append(tokens, token)\n\t\tif token.TokenType == EOF {"}}},
+		{"C15", "a finished token that spells an alias is re-typed", []Edit{{lx, "\t\ttokens = append(tokens, token)\n\t\tif token.TokenType == EOF {", "\t\tif strings.ToLower(token.Lexeme) == \"optional\" {\n\t\t\ttoken.TokenType = MAYBE\n\t\t}\n\t\ttokens = append(tokens, token)\n\t\tif token.TokenType == EOF {"}}},
+		{"C03", "a command searches what is left after the previous command", []Edit{{"libvore/engine/engine.go", "\tresult := Matches{}\n\tfor _, command := range bytecode.Bytecode {\n\t\treader := files.ReaderFromString(searchText)\n\t\tresult = append(result, search(&command, \"text\", reader, NOTHING)...)\n\t\treader.Close()\n\t}\n", "\tresult := Matches{}\n\ttext := searchText\n\tfor _, command := range bytecode.Bytecode {\n\t\treader := files.ReaderFromString(text)\n\t\tfound := search(&command, \"text\", reader, NOTHING)\n\t\tresult = append(result, found...)\n\t\treader.Close()\n\t\tif len(found) > 0 {\n\t\t\ttext = text[found[0].Offset.Start:]\n\t\t}\n\t}\n"}}},
+		{"C07", "a command searches what is left after the previous command", []Edit{{"libvore/engine/engine.go", "\tresult := Matches{}\n\tfor _, command := range bytecode.Bytecode {\n\t\treader := files.ReaderFromString(searchText)\n\t\tresult = append(result, search(&command, \"text\", reader, NOTHING)...)\n\t\treader.Close()\n\t}\n", "\tresult := Matches{}\n\ttext := searchText\n\tfor _, command := range bytecode.Bytecode {\n\t\treader := files.ReaderFromString(text)\n\t\tfound := search(&command, \"text\", reader, NOTHING)\n\t\tresult = append(result, found...)\n\t\treader.Close()\n\t\tif len(found) > 0 {\n\t\t\ttext = text[found[0].Offset.Start:]\n\t\t}\n\t}\n"}}},
+		{"C13", "the commands are filtered in place before they are run", []Edit{{"libvore/engine/engine.go", "\tresult := Matches{}\n\tfor _, command := range bytecode.Bytecode {\n\t\treader := files.ReaderFromString(searchText)\n", "\tresult := Matches{}\n\tkept := bytecode.Bytecode[:0]\n\tfor _, command := range bytecode.Bytecode {\n\t\tkept = append(kept, command)\n\t}\n\tfor _, command := range kept {\n\t\treader := files.ReaderFromString(searchText)\n"}}},
+		{"C09", "line end looks behind without asking where it stands", []Edit{{se, "\tnextChar := es.READ(1)\n\tnextTwoChar := es.READ(2)\n\tif nextChar == \"\\n\" ||", "\tnextChar := es.READ(1)\n\tnextTwoChar := es.READ(2)\n\tif (nextChar == \"\\n\" && es.READAT(es.currentFileOffset-1, 1) != \"\\r\") ||"}}},
+		{"C15", "blanks of Latin-1 answered from a table without NEL and no-break space", []Edit{{lx, "unicode.IsSpace(ch) && current_state != SSTRING_D_ESCAPE", "isBlank(ch) && current_state != SSTRING_D_ESCAPE"}, {lx, "func IsHex(", "func isBlank(ch rune) bool {\n\tif ch < 256 {\n\t\treturn ch == ' ' || (ch >= '\\t' && ch <= '\\r')\n\t}\n\treturn unicode.IsSpace(ch)\n}\n\nfunc IsHex("}}},
+		{"C06", "the writer spells line feeds as CRLF", []Edit{{"libvore/files/writer.go", "import (\n", "import (\n\t\"strings\"\n"}, {"libvore/files/writer.go", "vw.contents.Write([]byte(data))", "vw.contents.Write([]byte(strings.ReplaceAll(data, \"\\n\", \"\\r\\n\")))"}}},
+		{"C18", "a run without replace commands is skipped, asked with a pointer type", []Edit{{"libvore/vore.go", "func (v *Vore) RunFiles(filenames []string, mode engine.ReplaceMode, processFilenames bool) engine.Matches {\n", "func (v *Vore) RunFiles(filenames []string, mode engine.ReplaceMode, processFilenames bool) engine.Matches {\n\twrites := false\n\tfor _, command := range v.bytecode.Bytecode {\n\t\tif _, isReplace := command.(*bytecode.ReplaceCommand); isReplace {\n\t\t\twrites = true\n\t\t}\n\t}\n\tif !writes && mode == engine.OVERWRITE {\n\t\tmode = engine.NOTHING\n\t}\n"}}},
+		{"C17", "rendering drops empty tables from the data it renders", []Edit{{"libvore/engine/values.go", "func (v ValueHashMap) MarshalJSON() ([]byte, error) {\n\treturn json.Marshal(v.Value)\n", "func (v ValueHashMap) MarshalJSON() ([]byte, error) {\n\tfor key, entry := range v.Value {\n\t\tif entry.getType() == ValueHashMapType && entry.Hashmap().Len() == 0 {\n\t\t\tdelete(v.Value, key)\n\t\t}\n\t}\n\treturn json.Marshal(v.Value)\n"}}},
 		{"C08", "expression scan does not stop on the EOF token", []Edit{{ps, "tokenType == BREAK || tokenType == CONTINUE || tokenType == EOF", "tokenType == BREAK || tokenType == CONTINUE"}}},
 	}
 	var out []Mutant
